@@ -123,6 +123,8 @@ impl<D: DictionaryAccess> StatefulTokenizer<D> {
         self.input.build(self.dictionary.grammar())?;
 
         if self.input.current().is_empty() {
+            #[cfg(sudachi_verif)]
+            crate::verif::emit(|| serde_json::json!({"ev": "empty_input"}));
             return Ok(());
         }
 
@@ -143,6 +145,10 @@ impl<D: DictionaryAccess> StatefulTokenizer<D> {
         };
 
         let mut path = self.resolve_best_path()?;
+        #[cfg(sudachi_verif)]
+        crate::verif::path_event("best", 0, &path);
+        #[cfg(sudachi_verif)]
+        let mut verif_plugin_idx = 0usize;
 
         if debug {
             println!("=== Before Rewriting:");
@@ -151,9 +157,16 @@ impl<D: DictionaryAccess> StatefulTokenizer<D> {
 
         for plugin in self.dictionary.path_rewrite_plugins() {
             path = plugin.rewrite(&self.input, path, &self.lattice)?;
+            #[cfg(sudachi_verif)]
+            {
+                crate::verif::path_event("rewrite", verif_plugin_idx, &path);
+                verif_plugin_idx += 1;
+            }
         }
 
         path = split_path(&self.dictionary, path, self.mode, self.subset, &self.input)?;
+        #[cfg(sudachi_verif)]
+        crate::verif::path_event("split", match self.mode { Mode::A => 0, Mode::B => 1, Mode::C => 2 }, &path);
 
         if debug {
             println!("=== After Rewriting:");
@@ -269,6 +282,8 @@ impl<'a> LatticeBuilder<'a> {
 
             self.node_buffer.clear();
             let mut created = CreatedWords::default();
+            #[cfg(sudachi_verif)]
+            crate::verif::emit(|| serde_json::json!({"ev": "pos_begin", "p": ch_off, "byte": byte_off}));
             for e in self.lexicon.lookup(input_bytes, byte_off) {
                 // do we really need input.can_bow condition?
                 if (e.end < input_bytes.len()) && !self.input.can_bow(e.end) {
@@ -295,19 +310,30 @@ impl<'a> LatticeBuilder<'a> {
                 .cat_at_char(ch_off)
                 .intersects(CategoryType::NOOOVBOW | CategoryType::NOOOVBOW2)
             {
+                #[cfg(sudachi_verif)]
+                let mut verif_prov = 0usize;
                 for provider in self.oov_providers {
+                    #[cfg(sudachi_verif)]
+                    {
+                        crate::verif::emit(|| serde_json::json!({"ev": "oov_call", "p": ch_off, "provider": verif_prov, "fallback": false, "had": !created.is_empty()}));
+                        verif_prov += 1;
+                    }
                     created = self.provide_oovs(ch_off, created, provider.as_ref())?;
                 }
             }
 
             if created.is_empty() {
                 let provider = self.oov_providers.last().unwrap();
+                #[cfg(sudachi_verif)]
+                crate::verif::emit(|| serde_json::json!({"ev": "oov_call", "p": ch_off, "provider": self.oov_providers.len() - 1, "fallback": true, "had": false}));
                 created = self.provide_oovs(ch_off, created, provider.as_ref())?;
             }
 
             if created.is_empty() {
                 return Err(SudachiError::EosBosDisconnect);
             }
+            #[cfg(sudachi_verif)]
+            crate::verif::emit(|| serde_json::json!({"ev": "pos_done", "p": ch_off}));
         }
         self.lattice.connect_eos(self.matrix)?;
 
